@@ -232,6 +232,7 @@ def primitives(sess, suite, prim, thorough):
     for t in (SCALAR_PRIMS if thorough else rng.sample(SCALAR_PRIMS, 4) + ["field"]):
         for s in scalars[: (5 if thorough else 2)]:
             prim_case(sess, suite, t, s, True, "a valid scalar encoding")
+            prim_case(sess, suite, t, s + b"\x00", False, "a valid scalar encoding followed by one more byte")
             for m in deviations(sess, s, thorough, all_bits_of=(0, -1)):
                 prim_case(sess, suite, t, m)
         for v, name in special:
@@ -249,6 +250,7 @@ def primitives(sess, suite, prim, thorough):
     for t in (ELEM_PRIMS if thorough else rng.sample(ELEM_PRIMS[:4], 2) + ["group"]):
         for e in elems[: (5 if thorough else 2)]:
             prim_case(sess, suite, t, e, True, "a valid element encoding")
+            prim_case(sess, suite, t, e + b"\x00", False, "a valid element encoding followed by one more byte")
             for m in deviations(sess, e, thorough, all_bits_of=(0, -1)):
                 prim_case(sess, suite, t, m)
         # every leading tag byte and every last byte
@@ -270,6 +272,9 @@ def primitives(sess, suite, prim, thorough):
     if prim["sig"]:
         sg = bytes.fromhex(prim["sig"])
         prim_case(sess, suite, "signature", sg, True, "a valid signature encoding")
+        prim_case(sess, suite, "signature", sg + b"\x00", False, "a valid signature followed by one more byte")
+        prim_case(sess, suite, "signature", sg + sg[-n:], False, "a valid signature followed by a second response")
+        prim_case(sess, suite, "signature", sg[:-1], False, "a valid signature without its last byte")
         for m in deviations(sess, sg, thorough, all_bits_of=(0, -1, len(sg) - n - 1, len(sg) - n)):
             prim_case(sess, suite, "signature", m)
         if suite != "secp256k1-tr":
